@@ -15,6 +15,7 @@ package push
 
 import (
 	"context"
+	"runtime"
 	"sync"
 	"time"
 
@@ -207,8 +208,23 @@ func (b *Broker) message(ctx context.Context) map[string][]Message {
 				if verifhook.On {
 					verifhook.Gate("push.pollTimeout", id)
 				}
-				go b.doHeartBeat(context.Background(), id)
-				return map[string][]Message{}
+				for {
+					// give the responder up only if it is still the registered one;
+					// otherwise a publisher has taken it: wait for what it does with it,
+					// so that no accepted message ends in a channel nobody reads.
+					if b.responders.RemoveCb(id, func(_ string, v interface{}, exists bool) bool {
+						return exists && v.(chan map[string][]Message) == responder
+					}) {
+						go b.doHeartBeat(context.Background(), id)
+						return map[string][]Message{}
+					}
+					select {
+					case result := <-responder:
+						return result
+					default:
+						runtime.Gosched()
+					}
+				}
 			case result := <-responder:
 				return result
 			}
